@@ -200,14 +200,20 @@ fn starts(n: usize) -> Vec<Selection> {
 }
 
 pub fn run() -> Option<Report> {
-    let mut r = Report::new("meshes: unit box (12 faces), 1x2x3 box with two unused vertices, 5-face mesh with a zero-area face; reference = the mesh shifted by (1/8,1/16,1/32); 18 criteria (facing(+z,0.1), facing(+x,pi/2), near_mesh with distance {0.1,0.2} x planar {None,0.05} x angle {None,0.2} x all_points {true,false}); steps = {Add,Remove,Keep} x criteria; 6-7 starting selections (None, All, index sets incl. a duplicated id and a reversed full list); every chain of 1 and 2 steps; create_mesh / create_from_indices on every non-empty 0- and 1-step result; storage rotation: the three meshes with every face triple rotated by 1, by 2 and by (k+s)%3 (s = 0,1,2) so that each face is stored with its lowest vertex index first, second and third: create_from_indices on every single face, ordered pair of faces, full / reversed / odd list and create_mesh on All and every single face");
+    let mut r = Report::new("meshes: unit box (12 faces), 1x2x3 box with two unused vertices, 5-face mesh with a zero-area face; reference = the mesh shifted by (1/8,1/16,1/32); 18 chained criteria + 16 judged per face only (near_mesh with distance {0.03,0.1} x planar {0.5,0.15} (larger than the cap) x angle {None,0.2} x all_points) (facing(+z,0.1), facing(+x,pi/2), near_mesh with distance {0.1,0.2} x planar {None,0.05} x angle {None,0.2} x all_points {true,false}); steps = {Add,Remove,Keep} x criteria; 6-7 starting selections (None, All, index sets incl. a duplicated id and a reversed full list); every chain of 1 and 2 steps; create_mesh / create_from_indices on every non-empty 0- and 1-step result; storage rotation: the three meshes with every face triple rotated by 1, by 2 and by (k+s)%3 (s = 0,1,2) so that each face is stored with its lowest vertex index first, second and third: create_from_indices on every single face, ordered pair of faces, full / reversed / odd list and create_mesh on All and every single face");
     let crits = criteria();
+    // criteria judged one face at a time only (not chained): a planar tolerance LARGER than the distance tolerance (the
+    // cap is the distance tolerance alone: the planar tolerance may only narrow the result) and a tight cap
+    let mut judged = crits.clone();
+    for d in [0.03, 0.1] { for p in [Some(0.5), Some(0.15)] { for a in [None, Some(0.2)] { for all in [true, false] {
+        judged.push(Crit::Near(all, d, p, a));
+    } } } }
     for (mname, mesh) in meshes().iter() {
         let reference = shifted(mesh);
         let n = mesh.faces().len();
         // per-face verdicts, one face at a time
         let mut pred: Vec<Vec<bool>> = Vec::new();
-        for c in crits.iter() {
+        for c in judged.iter() {
             let mut p = vec![false; n];
             for i in 0..n {
                 r.case();
